@@ -79,7 +79,7 @@ class Path:
     def __init__(self, env=None, events=None, conds=None):
         self.env: Dict[str, Term] = dict(env or {})
         self.events: List[Event] = list(events or [])
-        self.conds: List[Tuple[str, bool]] = list(conds or [])
+        self.conds: List[Tuple[str, bool, str]] = list(conds or [])
         self.status = "live"  # live | ret | raise | break | continue
         self.ret: Optional[Term] = None
         self.exc: Optional[Tuple[str, str, int]] = None  # (type text, cause, line)
@@ -456,19 +456,19 @@ class Frame:
     def do_if(self, st: ast.If, p: Path) -> List[Path]:
         out = []
         d = self.decide(st.test, p)
-        for q, _ in self.expr(st.test, p):
+        for q, tt in self.expr(st.test, p):
             if q.status != "live":
                 out.append(q)
                 continue
             txt = ast.unparse(st.test)
             if d is not False:
                 a = q.fork()
-                a.conds.append((txt, True))
+                a.conds.append((txt, True, tt.key()))
                 self.narrow(st.test, True, a)
                 out.extend(self.block(st.body, [a]))
             if d is not True:
                 b = q.fork()
-                b.conds.append((txt, False))
+                b.conds.append((txt, False, tt.key()))
                 self.narrow(st.test, False, b)
                 out.extend(self.block(st.orelse, [b]) if st.orelse else [b])
         return out
@@ -569,7 +569,7 @@ class Frame:
             h = st.handlers[hi]
             if h.name:
                 hp.env[h.name] = hp.env.get("<exc>", Opaque("exc"))
-            hp.conds.append((f"except {htypes[hi]}", True))
+            hp.conds.append((f"except {htypes[hi]}", True, ""))
             out.extend(self.block(h.body, [hp]))
         if st.orelse:
             nxt = []
@@ -810,18 +810,18 @@ class Frame:
     def e_IfExp(self, e, p):
         out = []
         d = self.decide(e.test, p)
-        for q, _ in self.expr(e.test, p):
+        for q, tt in self.expr(e.test, p):
             if q.status != "live":
                 out.append((q, Opaque("dead")))
                 continue
             txt = ast.unparse(e.test)
             if d is not False:
                 a = q.fork()
-                a.conds.append((txt, True))
+                a.conds.append((txt, True, tt.key()))
                 out.extend(self.expr(e.body, a))
             if d is not True:
                 b = q.fork()
-                b.conds.append((txt, False))
+                b.conds.append((txt, False, tt.key()))
                 out.extend(self.expr(e.orelse, b))
         return out
 
@@ -1094,6 +1094,12 @@ class Frame:
         name = callee.text if callee.text else callee.head
         short = name.split(".")[-1]
         line = node.lineno
+        if callee.head.startswith("attr:") and callee.args:
+            mname = callee.head[5:]
+            recv = callee.args[0]
+            kws = tuple(Sym("kw:" + k, (v,)) for k, v in sorted(kw.items()))
+            self.ev(p, "call", text=mname, target=recv, args=tuple(pos) + kws, line=line)
+            return [(p, Sym("call:" + mname, (recv,) + tuple(pos) + kws))]
         if short == "getattr" and len(pos) >= 2:
             tgt, nm = pos[0], pos[1]
             if isinstance(nm, Const) and isinstance(nm.v, str):
@@ -1165,7 +1171,8 @@ class Frame:
                 try:
                     e = self.ev(p, "selfop", op=op, target=target, opts=opts, line=line)
                     return self.inline(owner.module, self.cls, fn, target, None,
-                                       self.bind_params(fn, True, pos, kw, owner.module), p, node)
+                                       self.bind_params(fn, True, pos, kw, owner.module), p, node,
+                                       via=self.via + (f"<self>.{op}",))
                 finally:
                     self.ctx.unfolding.pop()
         if isinstance(target, Fn):
